@@ -207,7 +207,10 @@ bool Importer::ImporterImpl::checkUnitsForCycles(const UnitsPtr &units, History 
         return true;
     }
 
-    return checkUnitsForCycles(importedUnits, history, unitsBeingChecked);
+    bool result = checkUnitsForCycles(importedUnits, history, unitsBeingChecked);
+    history.pop_back();
+
+    return result;
 }
 
 bool Importer::ImporterImpl::checkComponentForCycles(const ComponentPtr &component, History &history)
